@@ -264,6 +264,27 @@ def run(ctx):
                 impl.append(line)
                 res.case(tyname.encode() + m, nontrivial=line != "err")
                 res.count(("mutant-accepted:" if line != "err" else "mutant-rejected:") + tyname)
+    # long lists (every length prefix of two VLQ bytes and more: 128 … a few thousand): a transaction with many outputs, with
+    # many inputs, a block with many transactions — legal values well under the block size limit
+    from skepticoin.datatypes import Transaction as _T, Input as _I, Output as _O, OutputReference as _R, Block as _B
+    for n_long in (128, 1000, 1001, ctx.scale(1300, 5000)):
+        few_in = [_I(_R(gens.rb(rng, 32), 0), gens.signature(rng))]
+        t_out = _T(few_in, [_O(1 + k_, gens.pubkey(rng)) for k_ in range(n_long)])
+        t_in = _T([_I(_R(gens.rb(rng, 32), k_), gens.signature(rng)) for k_ in range(n_long)], [_O(5, gens.pubkey(rng))])
+        b0 = gens.block(rng)
+        small = gens.tx(rng)
+        b_many = _B(b0.header, [_T(list(small.inputs), [_O(k_ + 1, small.outputs[0].public_key if small.outputs else gens.pubkey(rng))])
+                                for k_ in range(n_long)])
+        for tyname, v in (("tx", t_out), ("tx", t_in), ("block", b_many)):
+            bs = v.serialize()
+            line = impl_dec(tyname, bs, res)
+            ops.append("dec %s %s" % (tyname, hx(bs)))
+            impl.append(line)
+            res.case(tyname.encode() + bs)
+            res.count("long_list:%s:%d" % (tyname, n_long))
+            if not line.startswith("ok %d " % len(bs)):
+                res.violations.append({"kind": "encode-then-decode fails or consumes a different length (a list of %d elements)"
+                                               % n_long, "type": tyname, "bytes_len": len(bs), "got": line[:200]})
     # signature union separately (all 256 tag bytes)
     for tag in range(256):
         for body in (b"", gens.rb(rng, 3), gens.rb(rng, 64), gens.rb(rng, 70), bytes([0, 0, 0, 5, 3, 1, 2, 3, 9])):
